@@ -1,6 +1,6 @@
 """C06 - BVH broad phase plus narrow phase finds exactly the brute-force collisions.
 
-Explicit-state exploration of the joint-configuration graph of three generated URDF robots (3-link chain,
+Explicit-state exploration of the joint-configuration graph of four generated URDF robots (3-link chain, gripper on a far rotated base with child-first link order and prefix link names,
 4-link chain with prismatic joints, branching tree with asymmetric generated whitelists; sphere / box /
 cylinder geometry from the URDF plus capsule, cone and mesh colliders attached with add_collider).
 Transitions: set_joint(j, v) followed by update_collider_poses(); every edge of the configuration graph
@@ -50,8 +50,16 @@ def enumerate_states(tier, seed):
         n_moves = sum(len(r["joints"][j]) for j in joints)
         for m in range(n_moves):
             states.append({"robot": name, "pred": 0, "mode": "seq3", "first": m})
-    return states, {"bound_completed": "every edge of the configuration graph (single-joint moves between all lattice configurations) of 3 robots "
-                                       "(27, 54 and 36 configurations) + all move sequences of length <= 3 from the initial configuration",
+        if tier == "thorough":
+            jt = r["joints_thorough"]
+            nc = 1
+            for j in joints:
+                nc *= len(jt[j])
+            for ci in range(nc):
+                states.append({"robot": name, "pred": ci, "mode": "edges", "dense": 1})
+    return states, {"bound_completed": "every edge of the configuration graph (single-joint moves between all lattice configurations) of 4 robots "
+                                       "(27, 54, 36 and 12 configurations) + all move sequences of length <= 3 from the initial configuration"
+                                       + ("; thorough: + every edge of the finer lattices (125, 500, 400 and 120 configurations)" if tier == "thorough" else ""),
                     "exhaustive": True}
 
 
@@ -66,9 +74,11 @@ def build(name, extra=True):
     r = robots.ROBOTS[name]
     tm = UrdfTransformManager()
     tm.load_urdf(r["urdf"])
-    bvh = BoundingVolumeHierarchy(tm, name)
+    G = base_of(name)
+    bvh = BoundingVolumeHierarchy(tm, name) if G is None else BoundingVolumeHierarchy(tm, name, G)
     bvh.fill_tree_with_colliders(tm, fill_self_collision_whitelists=True)
-    if extra:
+    bvh._wl_viol = whitelist_structure_violations(name, bvh)
+    if extra and r.get("extras", True):
         links = [n for n in tm.nodes if not n.startswith("collision:") and n != name and n != "origin"]
         last = links[-1]
         first = links[0]
@@ -93,7 +103,31 @@ def build(name, extra=True):
     return tm, bvh
 
 
-def other_bvh():
+def base_of(name):
+    b = robots.ROBOTS[name].get("base")
+    return None if b is None else sc.pose(b[0], np.array(b[1], dtype=float))
+
+
+def whitelist_structure_violations(name, bvh):
+    """Generated whitelists vs the kinematic structure: a frame must whitelist the frames of its own link and of the parent link,
+    and may additionally whitelist only frames of child links (which child of a branching link is a known asymmetry)."""
+    par = robots.ROBOTS[name]["parents"]
+    frames = list(bvh.colliders_)
+    link = {f: f[len("collision:"):].rsplit("/", 1)[0] for f in frames}
+    out = []
+    for f in frames:
+        l = link[f]
+        must = {g for g in frames if link[g] == l or link[g] == par.get(l)}
+        may = must | {g for g in frames if par.get(link[g]) == l}
+        wl = set(bvh.self_collision_whitelists_.get(f, ()))
+        if not must <= wl:
+            out.append(_viol("self_collision_whitelists", "own_or_parent_link_not_whitelisted", name, {"frame": f, "missing": sorted(must - wl)}))
+        if not (wl & set(frames)) <= may:
+            out.append(_viol("self_collision_whitelists", "non_neighbour_whitelisted", name, {"frame": f, "extra": sorted((wl & set(frames)) - may)}))
+    return out
+
+
+def other_bvh(G=None):
     from pytransform3d.transform_manager import TransformManager
     from distance3d.broad_phase import BoundingVolumeHierarchy
     tm = TransformManager()
@@ -101,18 +135,24 @@ def other_bvh():
     for i, (t, c) in enumerate([("box", (0.5, 0.0, 0.5)), ("sphere", (0.0, 0.4, 0.9)), ("cylinder", (-0.6, -0.2, 0.3)), ("box", (3.0, 3.0, 3.0))]):
         T = np.eye(4)
         T[:3, 3] = c
+        if G is not None:
+            T = G @ T
         tm.add_transform("obst%d" % i, "world", T)
-        col, _ = sc.build(t, 3 if t == "box" else 0, 0, np.array(c))
+        col, _ = sc.build_explicit(t, sc.SIZES[t][3 if t == "box" else 0], np.ascontiguousarray(T))
         b.add_collider("obst%d" % i, col)
     b.update_collider_poses()
     return b
 
 
-def queries():
+def queries(G=None):
     qs = []
     for t, s, c in [("box", 0, (0.3, 0.0, 0.6)), ("sphere", 0, (0.0, 0.0, 1.2)), ("box", 3, (0.6, 0.3, 0.3)), ("sphere", 3, (5.0, 5.0, 5.0)),
                     ("cylinder", 0, (0.0, -0.4, 0.5)), ("box", 2, (0.0, 0.0, 0.0))]:
-        qs.append(sc.build(t, s, 0, np.array(c))[0])
+        T = np.eye(4)
+        T[:3, 3] = c
+        if G is not None:
+            T = G @ T
+        qs.append(sc.build_explicit(t, sc.SIZES[t][s], np.ascontiguousarray(T))[0])
     return qs
 
 
@@ -120,9 +160,9 @@ def _ovl(a, b):
     return bool(np.all(a[:, 0] <= b[:, 1]) and np.all(a[:, 1] >= b[:, 0]))
 
 
-def set_config(tm, bvh, r, joints, cfg):
+def set_config(tm, bvh, r, joints, cfg, key="joints"):
     for j, k in zip(joints, cfg):
-        tm.set_joint(j, r["joints"][j][k])
+        tm.set_joint(j, r[key][j][k])
     bvh.update_collider_poses()
 
 
@@ -158,7 +198,7 @@ def check_state(tm, bvh, other, qs, cls, where, viol, seen):
         T = tm.get_transform(f, "origin")
         c = bvh.colliders_[f]
         c2o = np.asarray(c.collider2origin(), dtype=float)
-        ok = np.allclose(c2o[:3, 3], T[:3, 3], atol=1e-12) and (type(c).__name__ == "Sphere" or np.allclose(c2o[:3, :3], T[:3, :3], atol=1e-12))
+        ok = np.allclose(c2o[:3, 3], T[:3, 3], rtol=0, atol=1e-12) and (type(c).__name__ == "Sphere" or np.allclose(c2o[:3, :3], T[:3, :3], rtol=0, atol=1e-12))
         if not ok:
             add(_viol("update_collider_poses", "pose_differs_from_transform_manager", cls, {"frame": f, "where": where}))
     try:
@@ -224,11 +264,16 @@ def run_state(desc):
     name = desc["robot"]
     r = robots.ROBOTS[name]
     joints = sorted(r["joints"])
-    configs = list(itertools.product(*[range(len(r["joints"][j])) for j in joints]))
-    other = other_bvh()
-    qs = queries()
+    key = "joints_thorough" if desc.get("dense") else "joints"
+    configs = list(itertools.product(*[range(len(r[key][j])) for j in joints]))
+    other = other_bvh(base_of(name))
+    qs = queries(base_of(name))
     tm, bvh = build(name)
     viol, seen = [], set()
+    for v in bvh._wl_viol:
+        if v["sig"] not in seen:
+            seen.add(v["sig"])
+            viol.append(v)
     n_trans, n_states, nontrivial = 0, 0, 0
     fresh_cache = {}
     hist = {"robot": {name: 0}}
@@ -236,7 +281,7 @@ def run_state(desc):
     def fresh_obs(cfg):
         if cfg not in fresh_cache:
             tm2, bvh2 = build(name)
-            set_config(tm2, bvh2, r, joints, cfg)
+            set_config(tm2, bvh2, r, joints, cfg, key)
             fresh_cache[cfg] = observe(tm2, bvh2, other, qs)
         return fresh_cache[cfg]
 
@@ -259,14 +304,14 @@ def run_state(desc):
         c1 = configs[desc["pred"]]
         succ = [c2 for c2 in configs if sum(1 for a, b in zip(c1, c2) if a != b) == 1]
         for c2 in succ:
-            set_config(tm, bvh, r, joints, c1)
+            set_config(tm, bvh, r, joints, c1, key)
             n_trans += 1
             k = [i for i in range(len(c1)) if c1[i] != c2[i]][0]
-            tm.set_joint(joints[k], r["joints"][joints[k]][c2[k]])
+            tm.set_joint(joints[k], r[key][joints[k]][c2[k]])
             bvh.update_collider_poses()
             n_trans += 1
             visit(c2, {"from": list(c1), "to": list(c2)})
-        set_config(tm, bvh, r, joints, c1)
+        set_config(tm, bvh, r, joints, c1, key)
         visit(c1, {"from": "reset", "to": list(c1)})
     else:
         moves = [(j, k) for j in range(len(joints)) for k in range(len(r["joints"][joints[j]]))]
